@@ -359,7 +359,7 @@ func checkProperty(sc scenario, o outcome) []finding {
 
 func fullIdx(k int, nq int) []string { // index worker of bulk k from aidx.start to the end: block pos ids toks queue*nq stats done release
 	var ops []string
-	for i := 0; i < 4+nq+2; i++ {
+	for i := 0; i < 5+nq+2; i++ {
 		ops = append(ops, fmt.Sprintf("go:idx%d", k))
 	}
 	return ops
@@ -385,7 +385,10 @@ func scripted() []scenario {
 	}
 	// the Lean witness c07_reader_unsound_not: mapping snapshot between the `_all_` queue call and the token's
 	res = append(res, scenario{"witness-not", 2, [][]doc{{d(0, 0, 1, 1, 5)}, {d(1, 0, 1, 2, 5)}},
-		cat(app(0), fullIdx(0, 2), app(1), g("idx1", 5), []string{"srch:N.T5:0:10"}, g("rdr0", 7), []string{"drain"})})
+		cat(app(0), fullIdx(0, 2), app(1), g("idx1", 6), []string{"srch:N.T5:0:10"}, g("rdr0", 7), []string{"drain"})})
+	// the Lean witness c07_reader_unsound_dict: bulk 0 has created token 5 but not registered it; bulk 1 is completely indexed
+	res = append(res, scenario{"witness-dict", 2, [][]doc{{d(0, 0, 1, 1, 5)}, {d(1, 0, 1, 2, 5)}},
+		cat(app(0), g("idx0", 4), app(1), fullIdx(1, 2), []string{"srch:N.T5:0:10", "drain"})})
 	// the Lean witness c07_fetch_panic_witness: provider created, then a bulk adds a block and its positions
 	res = append(res, scenario{"witness-fetch", 2, [][]doc{{d(0, 0, 1, 1, 5)}, {d(1, 0, 1, 2, 5)}},
 		cat(app(0), fullIdx(0, 2), []string{"fetch:1.0+0.0"}, g("rdr0", 1), app(1), g("idx1", 2), g("rdr0", 3), []string{"drain"})})
@@ -813,7 +816,7 @@ func crashSite(stderr string) string {
 func siteOf(class string) string {
 	switch class {
 	case "search-result-violates-query":
-		return "frac/active_indexer.go:addLIDsToTokens"
+		return "frac/active_token_list.go:Append"
 	case "fetch-error-unpublished-block":
 		return "frac/active.go:createDataProvider"
 	case "seal-hangs-after-write-error":
